@@ -71,7 +71,8 @@ RULE = ("One case = one whole event history applied to a fresh FSM (kinds fsm / 
         "short frames, random walks); compared per operation: the three states, tagged sends/callbacks, host "
         "callbacks, error class. Kind sess: a real internal/pppoe SessionState (created by a PADR) driven by frames through "
         "handlePPP, the AAA verdict, Timeout/Close/terminate; compared per operation: phase, the three automaton states, "
-        "ipcpOpen/ipv6cpOpen/linkEnded and the egress stream. Non-trivial: the history produced at least one send or callback. "
+        "ipcpOpen/ipv6cpOpen/linkEnded and the egress stream. Kind lns: the same histories on a real internal/l2tp LNS "
+        "Session (the other owner of the automata). Non-trivial: the history produced at least one send or callback. "
         "Distinct: by case text. The distribution records how many (state, RFC event class) cells of the 10x17 table "
         "were exercised and how many conc cases really overlapped.")
 TRUSTED = ["the option handler is abstracted to the class of its answer (good/nak/rej/both) for the automaton; "
